@@ -9,9 +9,12 @@ THEOREMS = ['MM.Search.' + n for n in ('notSat_false_iff', 'C02_exhaustive_evalu
 TRUSTED_BASE = SEARCH_TRUST + ['theorems are stated for well-formed inputs (positive shares, finite impacts, iroas > 0); NaN/zero-share behaviour is compared by the correspondence only']
 
 
-def run(out, tier, model_ok=True):
+SUPPORTS_DEEPEN = True
+
+
+def run(out, tier, model_ok=True, deepen=False):
   out.rule = 'oracle: every returned design is re-checked against all specified constraints from the raw frame (shares recomputed by the harness; either share reading accepted; bounds inclusive, 1e-9 tolerance); non-trivial = some constraint specified and designs evaluated/returned'
-  run_search_prop(out, PROP, se.judge_c02, tier, model_ok)
+  run_search_prop(out, PROP, se.judge_c02, tier, model_ok, deepen=deepen)
 
 
 def replay(out, path, model_ok=True):
